@@ -245,6 +245,18 @@ def T(entry, param, value, valid, fn):
     return {'entry': entry, 'param': param, 'value': value, 'valid': valid, 'fn': fn}
 
 
+def _plot_after_rejected_fit(c, **settings):
+    """fit() is rejected for invalid settings; plotting the still unfitted object must be rejected as well"""
+    bm = Bycycle(**settings)
+    try:
+        bm.fit(c.x, c.fs, c.fr)
+    except ValueError:
+        pass
+    else:
+        raise AssertionError('the invalid fit was accepted')     # judged by the fit templates, not here
+    return bm.plot()
+
+
 def templates():
     out = []
     bad_fs = [0, TINY_NEG, -1, -250.0]
@@ -318,6 +330,18 @@ def templates():
             T('compute_period_consistency', 'direction', v, ok, lambda c, v=v: compute_period_consistency(c.df_cyc, direction=v)),
             T('recompute_edge', 'direction', v, ok, lambda c, v=v: recompute_edge(c.df_cyc.copy(), 2, v)),
         ]
+    for v in ['Next', 'forward', None, 'previous']:
+        # tables with fewer than three cycles (a sliced table, a very short recording) and a flat table
+        out += [
+            T('compute_amp_consistency[2 rows]', 'direction', v, False, lambda c, v=v: compute_amp_consistency(c.df_cyc.iloc[:2].reset_index(drop=True), direction=v)),
+            T('compute_amp_consistency[1 row]', 'direction', v, False, lambda c, v=v: compute_amp_consistency(c.df_cyc.iloc[:1].reset_index(drop=True), direction=v)),
+            T('compute_period_consistency[2 rows]', 'direction', v, False, lambda c, v=v: compute_period_consistency(c.df_cyc.iloc[:2].reset_index(drop=True), direction=v)),
+            T('compute_amp_consistency[flat]', 'direction', v, False, lambda c, v=v: compute_amp_consistency(c.df_cyc.assign(volt_rise=0.0, volt_decay=0.0), direction=v)),
+        ]
+    for bad in [{'monotonicity_threshold': 1.5}, {'min_n_cycles': -1}]:
+        out += [T('Bycycle.plot[after rejected fit]', 'thresholds', bad, False, lambda c, bad=bad: _plot_after_rejected_fit(c, thresholds=dict(c.th, **bad)))]
+    for kw in [{'burst_method': 'bogus'}, {'center_extrema': 'middle'}]:
+        out += [T('Bycycle.plot[after rejected fit]', list(kw)[0], list(kw.values())[0], False, lambda c, kw=kw: _plot_after_rejected_fit(c, thresholds=dict(c.th), **kw))]
     for v, ok in [(None, True), ('tqdm', True), ('bar', False), ('TQDM', False), (True, False), ('tqdm.gui', False)]:
         out += [
             T('progress_bar', 'progress', v, ok, lambda c, v=v: list(progress_bar(iter([1, 2]), v, 2))),
